@@ -311,3 +311,25 @@ Proof.
   - discriminate.
   - cbn [forallb]. rewrite !print_noslash. reflexivity.
 Qed.
+
+(* negative indices never enter a loop (`xIndexTmp > 0` fails at once): they contribute like 0 *)
+Lemma loopbits_clamp fuel i h t mul q : loopbits fuel i h t mul q = loopbits fuel i h (Z.max 0 t) mul q.
+Proof.
+  destruct (Z.ltb_spec 0 t) as [Hp|Hn]; [now rewrite Z.max_r by lia|].
+  rewrite Z.max_l by lia. destruct fuel; cbn [loopbits]; [reflexivity|].
+  destruct (Z.ltb_spec 0 t); [lia|]. cbn [andb]. reflexivity.
+Qed.
+Theorem encode_clamp h x y : encode h x y = encode h (Z.max 0 x) (Z.max 0 y).
+Proof. unfold encode. rewrite (loopbits_clamp _ _ _ x), (loopbits_clamp _ _ _ y). reflexivity. Qed.
+(* a zoom below 1 runs no iteration *)
+Lemma encode_nonpos_zoom h x y : h <= 0 -> encode h x y = 0.
+Proof. intros H. unfold encode. replace (Z.to_nat h) with 0%nat by lia. reflexivity. Qed.
+
+(* FormatInt(z, 10) is injective on all integers *)
+Lemma print_inj a b : print a = print b -> a = b.
+Proof.
+  unfold print. intros H. apply (f_equal DecimalString.NilZero.int_of_string) in H.
+  destruct (to_int_not_nil a), (to_int_not_nil b).
+  rewrite !DecimalString.NilZero.isi in H by assumption. injection H as H.
+  apply (f_equal Z.of_int) in H. now rewrite !DecimalZ.of_to in H.
+Qed.
